@@ -20,6 +20,7 @@ import CtyModel.Lemmas.MarksPrologue
 import CtyModel.Lemmas.MarksRebuild
 import CtyModel.Lemmas.d04ConvNoInv
 import CtyModel.Lemmas.d04Call
+import CtyModel.Lemmas.d04RefineNN
 import CtyModel.ConvertD08Env
 namespace CtyModel
 namespace C04
@@ -321,15 +322,20 @@ theorem call_noninterference_allowMarked_wf (spec : Fn.Spec) (tf : Fn.TypeFn) (i
   rw [Fn.call_eq, Fn.call_eq]
   exact Fn.callTable_blindWF spec tf impl args htf himpl hr hw
 
-/-- **`stdlib.LengthFunc` (its parameter is `AllowMarked`): `Type` and `Impl` as modelled in
-Stdlib/Collection.lean do not look at marks**, so the call computes the same on marked and on
-deeply unmarked arguments — relative to `refineNonNull` being blind on unmarked values, which
-is searched (harness: paired stdlib runs), not proved. -/
-theorem call_noninterference_length (args : List Value) (hr : Fn.RefineBlindWF Stdlib.lengthSpec)
-    (hw : ∀ v ∈ args, v.v.markerWF = true) :
+/-- **`refineNonNull` is blind where the protocol calls it**, so `RefineBlindWF` holds of every
+specification whose `RefineResult` is `refineNonNull` or absent — the hypothesis of
+`call_noninterference_allowMarked_wf` is instantiated for the standard library. -/
+theorem refineNonNull_blind (spec : Fn.Spec) (h : spec.refine = some Stdlib.refineNN ∨ spec.refine = none) :
+    Fn.RefineBlindWF spec := Fn.refineBlindWF_of_refineNN spec h
+
+/-- **`stdlib.LengthFunc` (its parameter is `AllowMarked`) computes the same on marked and on
+deeply unmarked arguments**: `Type`, `Impl` (Stdlib/Collection.lean) and `RefineResult` are
+blind, no hypothesis beyond proper marker layers on the arguments. -/
+theorem call_noninterference_length (args : List Value) (hw : ∀ v ∈ args, v.v.markerWF = true) :
     Fn.Out.map unmarkDeep (Fn.call Stdlib.lengthSpec Stdlib.lengthType Stdlib.lengthImpl args).1 =
       (Fn.call Stdlib.lengthSpec Stdlib.lengthType Stdlib.lengthImpl (args.map unmarkDeep)).1 :=
-  call_noninterference_allowMarked_wf _ _ _ args Fn.length_typeBlind Fn.length_implBlind hr hw
+  call_noninterference_allowMarked_wf _ _ _ args Fn.length_typeBlind Fn.length_implBlind
+    (refineNonNull_blind _ (.inl rfl)) hw
 
 /-- … and with no hypothesis left for the protocol + `Type` + `Impl` part (`RefineResult` switched off). -/
 theorem call_noninterference_length_unrefined (args : List Value) (hw : ∀ v ∈ args, v.v.markerWF = true) :
